@@ -306,34 +306,41 @@ func runC17(c C17Case, ev *Evid) (fs []Finding) {
 			}
 			time.Sleep(2 * time.Millisecond)
 		}
-		conc := make([]string, len(reqs))
-		errs := make([]error, len(reqs))
-		var wg sync.WaitGroup
-		start := make(chan struct{})
-		for i := range reqs {
-			i := i
-			wg.Add(1)
-			go func() {
-				defer wg.Done()
-				<-start
-				conc[i], errs[i] = get(reqs[i])
-			}()
+		rounds := 1
+		if c.Aborts > 0 {
+			rounds = 2
 		}
-		close(start)
-		wg.Wait()
-		for i := range reqs {
-			if errs[i] != nil {
-				add("http-error", "GET %s (one of %d concurrent requests) failed or was not answered within 45 s: %v", reqs[i], len(reqs), errs[i])
-				return
+		var conc []string
+		for round := 0; round < rounds; round++ {
+			conc = make([]string, len(reqs))
+			errs := make([]error, len(reqs))
+			var wg sync.WaitGroup
+			start := make(chan struct{})
+			for i := range reqs {
+				i := i
+				wg.Add(1)
+				go func() {
+					defer wg.Done()
+					<-start
+					conc[i], errs[i] = get(reqs[i])
+				}()
 			}
-			seq, err := get(reqs[i])
-			if err != nil {
-				add("http-error", "GET %s: %v", reqs[i], err)
-				return
-			}
-			if seq != conc[i] {
-				add("concurrent-differs", "GET %s answered differently with %d requests in flight than alone (%d vs %d bytes)", reqs[i], len(reqs), len(conc[i]), len(seq))
-				return
+			close(start)
+			wg.Wait()
+			for i := range reqs {
+				if errs[i] != nil {
+					add("http-error", "GET %s (one of %d concurrent requests) failed or was not answered within 45 s: %v", reqs[i], len(reqs), errs[i])
+					return
+				}
+				seq, err := get(reqs[i])
+				if err != nil {
+					add("http-error", "GET %s: %v", reqs[i], err)
+					return
+				}
+				if seq != conc[i] {
+					add("concurrent-differs", "GET %s answered differently with %d requests in flight than alone (%d vs %d bytes)", reqs[i], len(reqs), len(conc[i]), len(seq))
+					return
+				}
 			}
 		}
 		bodies := 0
@@ -435,8 +442,8 @@ func genC17(t *rapid.T) C17Case {
 		c := C17Case{Kind: kind, Now: now, ArchiveID: -1}
 		c.Files = genTree(t, l, now, false)
 		p := rapid.IntRange(2, 24).Draw(t, "requests")
-		if rapid.IntRange(0, 3).Draw(t, "aborts") == 0 {
-			c.Aborts = rapid.IntRange(1, 3).Draw(t, "abortCount")
+		if rapid.IntRange(0, 2).Draw(t, "aborts") == 0 {
+			c.Aborts = rapid.IntRange(2, 3).Draw(t, "abortCount")
 		}
 		if rapid.IntRange(0, 5).Draw(t, "missingBurst") == 0 {
 			// a burst of requests for files that do not exist (each answered "not exist"): failures must not
